@@ -185,7 +185,7 @@ def apply_mutation(o, kind, mut, p):
 # --------------------------------------------------------------------------- executor
 
 class Executor:
-    def __init__(self, oracle=None, alias_guidance=True, count_lines=False, record_args=False):
+    def __init__(self, oracle=None, alias_guidance=True, count_lines=False, record_args=False, bystanders=True):
         """oracle: callable(req)->resp implementing F (None => outcomes are recorded but not judged)."""
         self.L = Lib()
         self.L.import_all()
@@ -194,6 +194,8 @@ class Executor:
         self.alias_guidance = alias_guidance
         self.count_lines = count_lines
         self.record_args = record_args
+        self.bystanders = bystanders   # I4: earlier results must not change during a library call they are not part of
+        self.digests = {}
         self.slots = {}          # id -> live object
         self.meta = {}           # id -> {"tag","op","args","kw","key","subs":[(path,kind,aliased)]}
         self.events = []
@@ -233,6 +235,8 @@ class Executor:
         except C.Unrebuildable as e:
             ev["skipped"] = "unrebuildable literal: " + str(e)
             self._bump("steps_unrebuildable")
+        if self.bystanders and kind in ("mutate", "lit"):
+            self._refresh_digests()   # caller-side events may change other caller-held objects through caller-made aliases
         self.events.append(ev)
         self.states.add(self._state())
         return ev
@@ -246,6 +250,7 @@ class Executor:
     def _do_drop(self, st, ev):
         self.slots.pop(st["ref"], None)
         self.meta.pop(st["ref"], None)
+        self.digests.pop(st["ref"], None)
         gc.collect()
         self._bump("drops")
 
@@ -421,6 +426,12 @@ class Executor:
                                         "(in a fresh interpreter as well)", {"arg": i, "before": a, "after": b})
         self.transitions.add((self._state(), spec.family, ev["outkind"] if kind == "exc" else "ok", faulted))
 
+        # I4 - bystanders: an object the library returned earlier (or a caller-owned literal) that is NOT an
+        # argument of this call must not change value during it, unless it shares a sub-object with a
+        # documented in-place argument (e.g. Stabilizer(graph) shares graph.adjacency_matrix)
+        if self.bystanders:
+            self._check_bystanders(ev, st, vals, inplace, same)
+
         # keep the result alive in its slot
         if kind == "ok":
             self.slots[st["id"]] = value
@@ -431,6 +442,37 @@ class Executor:
             ev["tag"] = "exc"
 
     # ---- support
+    def _refresh_digests(self):
+        for sid, o in self.slots.items():
+            self.digests[sid] = C.digest(C.canon(o))
+
+    def _check_bystanders(self, ev, st, vals, inplace, same):
+        arg_ids = {id(v) for v in vals}
+        inplace_vals = [vals[i] for i in range(len(vals)) if i in inplace or (i in same and same[i] in inplace)]
+        shared = None
+        changed = []
+        for sid, o in self.slots.items():
+            d = C.digest(C.canon(o))
+            if d == self.digests.get(sid):
+                continue
+            self.digests[sid] = d
+            if id(o) in arg_ids:
+                continue            # arguments are judged by I2 / the in-place rule
+            if shared is None:
+                shared = set()
+                for v in vals:      # anything reachable from an argument was handed to the call as well
+                    shared |= _identity_closure(v)
+            if _identity_closure(o) & shared:
+                # part of an argument (e.g. slot = r3 and argument = r3[0]) or memory shared with one:
+                # if that argument is in-place the change is legitimate, otherwise I2 has already spoken
+                continue
+            changed.append(sid)
+        self._bump("bystander_checks")
+        for sid in changed:
+            m = self.meta.get(sid, {})
+            self._violation(ev, st, "I4", f"an object returned earlier by {m.get('op')} (slot {sid}) changed value during "
+                            f"{st['op']} although it is not an argument of that call", {"slot": sid, "producer": m.get("op")})
+
     def _register(self, sid, value, canon_value, info):
         subs = []
         ids = seams.library_state_ids() if self.alias_guidance else ()
@@ -445,6 +487,8 @@ class Executor:
         m["canon"] = canon_value if len(C.cjson(canon_value)) < 30000 else None
         m["info"] = _summarise(canon_value, info)
         self.meta[sid] = m
+        if self.bystanders:
+            self.digests[sid] = C.digest(canon_value)
 
     def _probe_line_count(self, spec, pos, kw, scope):
         """Line events the armed call would execute in the current state (forked probe: the live
@@ -479,6 +523,34 @@ class Executor:
         v = {"invariant": inv, "step": st["id"], "op": st["op"], "text": text, "detail": detail}
         ev.setdefault("violations", []).append(inv)
         self.violations.append(v)
+
+
+def _identity_closure(root):
+    """ids of every mutable sub-object reachable from a value (arrays also through their .base chain)."""
+    import numpy as np
+    out = set()
+    stack = [root]
+    while stack:
+        o = stack.pop()
+        k = kind_of(o)
+        if k is None or id(o) in out:
+            continue
+        out.add(id(o))
+        if k in ("list", "tuple"):
+            stack.extend(o)
+        elif k == "dict":
+            stack.extend(o.values())
+        elif k == "nd":
+            b = o.base
+            while b is not None and isinstance(b, np.ndarray):
+                out.add(id(b))
+                b = b.base
+        elif k == "qc":
+            if isinstance(o.metadata, dict):
+                stack.append(o.metadata)
+        else:
+            stack.extend(v for _, v in C.lib_attrs(o))
+    return out
 
 
 def _shape_hint(o, k):
